@@ -130,7 +130,9 @@ def run(ctx):
             lv = unparse(lp.target)
             av = kwarg(encs[0], "assignments", 1)
             encv = [unparse(x.targets[0]) for x in ast.walk(lp) if isinstance(x, ast.Assign) and x.value is encs[0]]
-            ok = (norm(av) in ("assignments.get(%s.member_id, {})" % lv,) and norm(mems[0].args[0]) == "%s.member_id" % lv
+            amap = [unparse(x.targets[0]) for x in walk_body_shallow(gen.body) if isinstance(x, ast.Assign) and isinstance(x.value, ast.Call)
+                    and call_name(x.value) == "_round_robin_assignment"]
+            ok = (bool(amap) and norm(av) in ("%s.get(%s.member_id, {})" % (amap[0], lv),) and norm(mems[0].args[0]) == "%s.member_id" % lv
                   and encv and norm(mems[0].args[1]) == encv[0] and unparse(lp.iter) == gen.params[1])
     r.check(ok, "%s#blob-keyed-by-member" % gen.qname, "blob and lookup do not use the same member id, or absent members do "
             "not get the empty assignment", where(gen, gen.node), "a member decodes another member's partitions")
